@@ -46,8 +46,8 @@ claimed = {
  "C06": dict(
   technique="static aliasing / typestate / shape rules on the type-checked syntax and go/ssa of the shaping engine",
   engine="shaperules",
-  text="Decides only structural necessary conditions of the reference-semantics statement (a narrow claim): (slicealias) no re-slice x[:k] is assigned to a different slice variable with both slices subsequently grown by append, in any library function — the matcher's matched-position and skipped-position lists never share a backing array; (firstmatch) applyAt has the shape 'for each subtable in order: next := apply(); if next >= 0 return next; return -1'; (lookuporder) Apply ranges over ctx.lookups in slice order; (scratchclaim/scratchreuse) a slice derived from ctx.scratch escapes into a pushed nested-action record only after ctx.scratch = nil, and the scratch buffer's old contents are never read; (textappend) no append onto an input glyph's Text slice. Breaking any of them corrupts ligature bookkeeping, subtable priority, lookup order, nested positions or attached text for some lookup list. Level 'other'; equality with a reference shaper is value-level and not decided.",
-  note="Trusted: go/types, go/ssa. Not covered: everything value-level — that each apply method implements the OpenType rule for its lookup type, skipping by lookup flags, position fix-ups after insertions/merges, anchor arithmetic.",
+  text="Decides only structural necessary conditions of the reference-semantics statement (a narrow claim): (slicealias) no re-slice x[:k] is assigned to a different slice variable with both slices subsequently grown by append, in any library function — the matcher's matched-position and skipped-position lists never share a backing array; (firstmatch) applyAt has the shape 'for each subtable in order: next := apply(); if next >= 0 return next; return -1'; (lookuporder) Apply ranges over ctx.lookups in slice order; (scratchclaim/scratchreuse) a slice derived from ctx.scratch escapes into a pushed nested-action record only after ctx.scratch = nil, and the scratch buffer's old contents are never read; (textappend) no append onto an input glyph's Text slice; (flagprecedence) in the glyph filter the mark-attachment-type test is confined to the branch where UseMarkFilteringSet is clear, and that test to the branch where IgnoreMarks is clear (precedence of OpenType chapter 2); (lookaheadbound) the loops matching Lookahead/Backtrack sequences of the three chained-context subtables do not mention the window parameters a/b; (markadvance) in GPOS 4.1/6.1 the value added to the mark's XOffset depends on Advance loads indexed by an up-counter that stops at the mark position; (memokey) no result that keeps a pointer argument is cached under a key computed from only part of what the argument points to (zero instances today; positive controls in /verif/controls for memokey and slicealias). Breaking any of them corrupts ligature bookkeeping, subtable priority, lookup order, nested positions, mark filtering, nested chained contexts, mark placement or attached text for some lookup list. Level 'other'; equality with a reference shaper is value-level and not decided.",
+  note="Trusted: go/types, go/ssa. Not covered: everything value-level — that each apply method implements the OpenType rule for its lookup type, the remaining lookup-flag semantics, position fix-ups after insertions/merges, anchor arithmetic.",
   ref="DESIGN.md §3 E13, §4 C06"),
  "C07": dict(
   technique="static typestate and discipline rules on go/ssa (nested-action stack empty on exit, push implies match, scratch claim/release, buffer reset), panic-reachability inventory with closed-set discharge, order-sensitivity analysis",
